@@ -11,7 +11,7 @@ import MgpuProofs.C10BuddyAny
   `live_buffers_mapped_full_refuted`, `free_live_full_refuted` below (replayed); NOT needed for
   `freed_buffers_unmapped` (Props/C10Freed.lean).
 * buddy: `legal` — REMOVED (`buddy_disjoint_any_history`); device size `4096 * 2^F` — necessary
-  (`buddy_aligned_any_size_full_refuted`, replayed); `AmPos` — necessary (`buddy_round_trip_full_refuted`, replayed).
+  (`buddy_aligned_any_size_full_refuted`, replayed); `AmPos` (requests of at least one page) — was necessary for the code before the zero-page repair (`buddy_round_trip_full_before_fix_refuted`) and is REMOVED for the repaired code (`buddy_round_trip_full_holds`).
 -/
 namespace C10
 
